@@ -51,7 +51,8 @@ type hdOp struct {
 
 	// join
 	R     int    `json:"r,omitempty"`  // room number, 0 = leave
-	RS    int    `json:"rs,omitempty"` // Nextcloud session id number, 0 = none
+	RS    int    `json:"rs,omitempty"` // Nextcloud session id number, 0 = none (made disjoint per backend unless RawRS)
+	RawRS bool   `json:"rawrs,omitempty"`
 	Err   string `json:"err,omitempty"`
 	Perm  []int  `json:"perm,omitempty"` // permission indices
 	HasP  bool   `json:"hasp,omitempty"`
@@ -246,6 +247,20 @@ func (r *hdRun) resolve(id *hdIdRef) (string, string) {
 	return s, term
 }
 
+// backendOfConn: the backend of the session currently attached to the connection (0 if none)
+func (r *hdRun) backendOfConn(c int) int {
+	pub := r.pub[c]
+	if pub == "" {
+		return 0
+	}
+	if sess := r.sys.hub.GetSessionByPublicId(pub); sess != nil {
+		if b := r.sys.backendIndex(sess.Backend()); b >= 0 {
+			return b
+		}
+	}
+	return 0
+}
+
 func (s *hdSystem) privSid(privateId string) uint64 {
 	if data := s.hub.decodePrivateSessionId(privateId); data != nil {
 		return data.Sid
@@ -378,8 +393,13 @@ func (r *hdRun) exec(o *hdOp) string {
 		s.backend.roomReply = hdRoomReply{Error: o.Err, Permissions: hdPermList(o.Perm), HasPerm: o.HasP, SessionUser: hdUser(o.SU)}
 		s.backend.mu.Unlock()
 		room := map[string]interface{}{"roomid": hdRoom(o.R)}
-		if o.RS > 0 {
-			room["sessionid"] = hdRoomSession(o.RS)
+		rs := o.RS
+		if rs > 0 && !o.RawRS {
+			// Nextcloud session ids of different backends never coincide (the shared map is a known finding of C03)
+			rs += 10 * (1 + r.backendOfConn(o.C))
+		}
+		if rs > 0 {
+			room["sessionid"] = hdRoomSession(rs)
 		}
 		data, _ := json.Marshal(map[string]interface{}{"id": "j", "type": "room", "room": room})
 		s.sendSync(c, data)
@@ -393,7 +413,7 @@ func (r *hdRun) exec(o *hdOp) string {
 			}
 			rep = fmt.Sprintf("RepOk %s %d", p, o.SU)
 		}
-		return fmt.Sprintf("OJoin %d %d %d (%s)", o.C, o.R, o.RS, rep)
+		return fmt.Sprintf("OJoin %d %d %d (%s)", o.C, o.R, rs, rep)
 	case "msg", "ctl":
 		if c == nil {
 			return ""
@@ -437,8 +457,12 @@ func (r *hdRun) exec(o *hdOp) string {
 				id, t := r.resolve(u.Id)
 				e := map[string]interface{}{"sessionId": id, "inCall": u.InCall}
 				if u.RS > 0 {
-					e["sessionId"] = hdRoomSession(u.RS)
-					t = fmt.Sprintf("(IdRS %d)", u.RS)
+					urs := u.RS
+					if !o.RawRS {
+						urs += 10 * (1 + o.B)
+					}
+					e["sessionId"] = hdRoomSession(urs)
+					t = fmt.Sprintf("(IdRS %d)", urs)
 				}
 				pt := "None"
 				if u.HasP {
@@ -465,8 +489,12 @@ func (r *hdRun) exec(o *hdOp) string {
 			var terms []string
 			for _, u := range o.Users {
 				if u.RS > 0 {
-					sessions = append(sessions, hdRoomSession(u.RS))
-					terms = append(terms, fmt.Sprintf("%d", u.RS))
+					urs := u.RS
+					if !o.RawRS {
+						urs += 10 * (1 + o.B)
+					}
+					sessions = append(sessions, hdRoomSession(urs))
+					terms = append(terms, fmt.Sprintf("%d", urs))
 				}
 			}
 			var uids []string
